@@ -15,8 +15,11 @@ CONSTANTS NN, MaxOps,
           Snap        \* TRUE: every node keeps a snapshot file and re-joins the members it last knew alive when restarted
 Nodes == 0..(NN - 1)
 
-VARIABLES st, comp, know, part, ops, last, M, passive
-vars == <<st, comp, know, part, ops, last, M, passive>>
+VARIABLES st, comp, know, part, ops, last, M, passive, unheard
+vars == <<st, comp, know, part, ops, last, M, passive, unheard>>
+\* unheard: nodes that came back after a graceful leave by a join which members holding the old leave could not hear
+\* (they were cut off): those members keep exchanging the old leave by state sync, which raises its time by one per
+\* exchange, past the time of the join they missed
 \* passive: nodes started again after a graceful leave that have not issued a join of their own since (they were only
 \* joined BY others, so they never broadcast a join intent newer than their old leave)
 \* know[n][x]: what running node n should know about x: 0 nothing, 1 x is a live member of n's cluster,
@@ -64,6 +67,7 @@ Start(x) ==
             /\ know' = [know EXCEPT ![x] = [Blank EXCEPT ![x] = 1]]
   /\ last' = [a |-> "start", x |-> x]
   /\ passive' = IF st[x] = 2 THEN passive \cup {x} ELSE passive \ {x}
+  /\ unheard' = unheard \ {x}
   /\ UNCHANGED part
 Join(x, y) ==
   /\ x # y /\ st[x] = 1 /\ st[y] = 1 /\ SameSide(x, y) /\ y \notin comp[x]
@@ -73,6 +77,7 @@ Join(x, y) ==
      /\ know' = [n \in Nodes |-> IF n \in live THEN [m \in Nodes |-> IF m \in live /\ know[n][m] # 1 THEN Meet(n, m, 0) ELSE know[n][m]] ELSE know[n]]
   /\ last' = [a |-> "join", x |-> x, y |-> y]
   /\ passive' = passive \ {x}
+  /\ unheard' = unheard \cup { m \in comp[x] \cup comp[y] : st[m] = 1 /\ \E n \in Nodes : st[n] = 1 /\ know[n][m] = 2 /\ ~SameSide(n, m) }
   /\ UNCHANGED <<st, part>>
 Leave(x) ==         \* graceful leave followed by shutdown, issued while connected to a running member of its cluster
   /\ st[x] = 1 /\ \E y \in (comp[x] \cap Running) \ {x} : SameSide(x, y)
@@ -81,25 +86,25 @@ Leave(x) ==         \* graceful leave followed by shutdown, issued while connect
   \* that is down knew stays as it was
   /\ know' = [n \in Nodes |-> IF n # x /\ st[n] = 1 /\ know[n][x] = 1 THEN [know[n] EXCEPT ![x] = IF SameSide(n, x) THEN 2 ELSE 5] ELSE know[n]]
   /\ last' = [a |-> "leave", x |-> x]
-  /\ UNCHANGED <<comp, part, passive>>
+  /\ UNCHANGED <<comp, part, passive, unheard>>
 Crash(x) ==
   /\ st[x] = 1
   /\ st' = [st EXCEPT ![x] = 3]
   /\ know' = [n \in Nodes |-> IF n # x /\ st[n] = 1 /\ know[n][x] = 1 THEN [know[n] EXCEPT ![x] = 3] ELSE know[n]]
   /\ last' = [a |-> "crash", x |-> x]
-  /\ UNCHANGED <<comp, part, passive>>
+  /\ UNCHANGED <<comp, part, passive, unheard>>
 Partition(S) ==
   /\ part = {} /\ S # {} /\ S # Nodes
   /\ part' = S
   /\ last' = [a |-> "partition", s |-> [i \in 1..NN |-> IF (i - 1) \in S THEN 1 ELSE 0]]
-  /\ UNCHANGED <<st, comp, know, passive>>
+  /\ UNCHANGED <<st, comp, know, passive, unheard>>
 Heal ==
   /\ part # {} /\ part' = {}
   /\ last' = [a |-> "heal"]
-  /\ UNCHANGED <<st, comp, know, passive>>
+  /\ UNCHANGED <<st, comp, know, passive, unheard>>
 Wait ==
   /\ last' = [a |-> "wait"]
-  /\ UNCHANGED <<st, comp, know, part, passive>>
+  /\ UNCHANGED <<st, comp, know, part, passive, unheard>>
 
 ------------------------------------------------------------------------------
 (* C01 on the observed final views.  v[n+1][x+1] = status node n reports for x.  *)
@@ -122,13 +127,16 @@ MonQuiet(m, v) ==
   [ bad |-> m.bad \cup (IF Wrong(v) = {} THEN {} ELSE {"C01_view_not_converged"})
                   \cup (IF SelfWrong(v) = {} THEN {} ELSE {"C01_self_not_alive"}),
     wrong |-> Wrong(v),
-    \* every wrong view is about a passively re-joined node still shown leaving/left: its peers hold the old leave
-    \* claim, nothing newer was ever broadcast (recorded finding, same mechanism as the C02 laundering finding)
-    tags |-> IF Wrong(v) # {} /\ \A w \in Wrong(v) : w[2] \in passive /\ v[w[1] + 1][w[2] + 1] \in {2, 3}
-               THEN {"passive_rejoin_after_leave"} ELSE {} ]
+    \* every wrong view is explained by a recorded finding: it shows a re-joined node still leaving/left, and that node
+    \* was brought back passively (its peers hold the old leave claim, nothing newer was ever broadcast) or by a join
+    \* that the holders of the old leave could not hear (the old leave's time kept growing by state sync meanwhile)
+    tags |-> LET expl(w) == IF v[w[1] + 1][w[2] + 1] \in {2, 3} /\ w[2] \in passive THEN "passive_rejoin_after_leave"
+                            ELSE IF v[w[1] + 1][w[2] + 1] \in {2, 3} /\ w[2] \in unheard THEN "rejoin_unheard_by_holders_of_old_leave"
+                            ELSE "none"
+             IN  IF Wrong(v) # {} /\ \A w \in Wrong(v) : expl(w) # "none" THEN { expl(w) : w \in Wrong(v) } ELSE {} ]
 
 Init == /\ st = [x \in Nodes |-> 0] /\ comp = [x \in Nodes |-> {x}] /\ know = [x \in Nodes |-> Blank]
-        /\ part = {} /\ ops = 0 /\ last = [a |-> "init"] /\ MonInit /\ passive = {}
+        /\ part = {} /\ ops = 0 /\ last = [a |-> "init"] /\ MonInit /\ passive = {} /\ unheard = {}
 
 Op == \/ \E x \in Nodes : Start(x) \/ Leave(x) \/ Crash(x)
       \/ \E x, y \in Nodes : Join(x, y)
